@@ -38,6 +38,21 @@ pub fn run_property(property: &str, tier: Tier) -> i32 {
     report.finish()
 }
 
+/// Runs some configurations of an engine family on behalf of another check (the codec properties also have an engine-level
+/// face: decoder state across connections, bytes produced by the real service loop) and merges what is found.
+pub fn run_family_subset_into(report: &mut Report, property: &str, family: &str, keep: &dyn Fn(&Cfg) -> bool, tier: Tier, key: &str) {
+    let configs: Vec<Cfg> = families::build(family, Tier::Quick).into_iter().filter(|c| keep(c)).collect();
+    let _ = tier;
+    let mut sub = Report::new(property, Tier::Quick, "model_checking");
+    let n = configs.len();
+    run_family_into(&mut sub, property, family, configs, Tier::Quick);
+    report.set(key, json!({"family": family, "configs": n, "states": sub.coverage.get("states"), "transitions": sub.coverage.get("transitions"), "capped": sub.coverage.get("capped")}));
+    report.machinery_errors.extend(sub.machinery_errors);
+    report.known_hit.extend(sub.known_hit);
+    for (v, replay) in sub.violations { if !report.violations.iter().any(|(x, _)| x.property == v.property && x.signature == v.signature) { report.violations.push((v, replay)); } }
+    crate::common::watchdog::set_context(property, tier.name(), serde_json::Value::Null);
+}
+
 /// `mc sweep [quick|thorough]`: every E1 family in one process, every violation of any property reported.  Not a registered
 /// check (its evidence file is evidence/SWEEP.json); used to run the whole engine battery against one modified tree.
 pub fn run_sweep(tier: Tier) -> i32 {
